@@ -199,6 +199,20 @@ def case(draw):
     return {"g": g, "b1": [tb1, fb1], "b2": [tb2, fb2], "kwargs_first": draw(st.sampled_from([None, None, None, None, "single_sided", "quad_segs", "mitre_limit"]))}
 
 
+@st.composite
+def top_edge_case(draw):
+    """Geometries within a few buffers of MAX_FREQUENCY (frames measured down from the top) with frequency buffers that are arbitrary
+    floats: the outline is cut at the top edge, and the cut must land on MAX_FREQUENCY itself - not one ulp above it - whatever the
+    buffer is (scaling the edge by 1/buffer and back is not exact for about one buffer value in a hundred)."""
+    fs = draw(st.sampled_from([64.0, 1024.0]))
+    frame = {"ts": draw(st.sampled_from([2.0**-3, 1.0])), "fs": fs, "t_off": draw(st.sampled_from([0.0, 3.0, 100.0])), "f_off": 0.0, "flip": True}
+    g = draw(geometry_spec(kinds=["Point", "MultiPoint", "LineString", "MultiLineString", "Polygon", "MultiPolygon"], frame=frame, simple_lines=True))
+    fb1 = draw(st.floats(fs / 4, 50 * fs, allow_nan=False, allow_subnormal=False))
+    tb1 = draw(st.sampled_from([0.125, 0.5, 1.0]))
+    k = draw(st.sampled_from([1.5, 2.0]))
+    return {"g": g, "b1": [tb1, fb1], "b2": [tb1 * k, fb1 * k], "kwargs_first": None}
+
+
 def _valid_result(res):
     from vf.checks.c03 import ref_valid
 
@@ -470,6 +484,7 @@ def check_negative(spec, ctx):
 
 
 SUBS = [
+    Sub("top_edge", check, strategy=top_edge_case, quick=3000, thorough=60000, min_nontrivial=0.1),
     Sub("grow_and_stay_valid", check, strategy=case, quick=14000, thorough=350000, min_nontrivial=0.2),
     Sub("negative_rejected", check_negative, strategy=neg_case, quick=1500, thorough=20000),
     Sub("overlapping_members", check_overlap, strategy=overlap_case, quick=1500, thorough=30000, min_nontrivial=0.3),
